@@ -11,3 +11,6 @@ Definition tcpcl_xfer_refuse : Z := 3.
 Definition tcpcl_max_segment_len : Z := 1048576.   (* sender's cap of one segment buffer (= default MRU, 1 MiB) *)
 Definition tcpcl_ack_timeout_s : Z := 10.      (* Send: seconds without any event before giving up *)
 Definition tcpcl_ack_chan_len : Z := 32.       (* Send: buffered acknowledgement channel *)
+Definition tcpcl_client_segment_mru : Z := 1048576.   (* Client.Start: Segment MRU announced in SESS_INIT *)
+Definition tcpcl_client_transfer_mru : Z := 1073741824. (* Client.Start: Transfer MRU announced in SESS_INIT *)
+Definition tcpcl_client_report_chan_len : Z := 32.    (* Client.Start: buffered report channel *)
